@@ -232,3 +232,28 @@ _t("glist", [{"cfg": "glist_t3.cfg", "module": "MC_List.tla", "flags": ["--persi
              {"cfg": "glist_t2.cfg", "module": "MC_List.tla", "flags": ["--persist", "--laws"], "invariants": INV_LIST, "timeout": 3000}])
 _t("merkle", [{"cfg": "merkle_th.cfg", "module": "MC_Merkle.tla", "flags": ["--persist", "--laws"], "invariants": INV_MERKLE, "timeout": 3000},
               {"cfg": "merkle_ta.cfg", "module": "MC_Merkle.tla", "flags": ["--persist", "--laws"], "invariants": INV_MERKLE, "timeout": 3000}])
+
+
+# ---- more implementation traces: List, GList, MerkleReg --------------------------------------------
+ENGINES["list"]["traces"] = {
+    "quick": [tr("causal4", "trace_list.cfg", "Trace_List.tla", "--n", 4, "--histories", 15, "--steps", 50, "--maxops", 10, "--regime", "causal")],
+    "thorough": [tr("causal4", "trace_list.cfg", "Trace_List.tla", "--n", 4, "--histories", 100, "--steps", 60, "--maxops", 12, "--regime", "causal")],
+}
+ENGINES["list"]["trace_props"] = {"seq": ["C12", "C01"], "op": ["C12", "C13", "C14"], "index": ["C13"]}
+ENGINES["glist"]["traces"] = {
+    "quick": [tr("any4", "trace_glist.cfg", "Trace_List.tla", "--n", 4, "--histories", 15, "--steps", 50, "--maxops", 8, "--regime", "any", "--merge", "--snap")],
+    "thorough": [tr("any4", "trace_glist.cfg", "Trace_List.tla", "--n", 4, "--histories", 100, "--steps", 60, "--maxops", 10, "--regime", "any", "--merge", "--snap")],
+}
+ENGINES["glist"]["trace_props"] = {"seq": ["C13", "C01", "C03", "C08"], "op": ["C13", "C14"], "index": ["C13"]}
+ENGINES["merkle"]["traces"] = {
+    "quick": [tr("any4", "trace_merkle.cfg", "Trace_Merkle.tla", "--n", 4, "--m", 2, "--histories", 15, "--steps", 50, "--maxops", 8, "--regime", "any", "--merge", "--snap")],
+    "thorough": [tr("any4", "trace_merkle.cfg", "Trace_Merkle.tla", "--n", 4, "--m", 2, "--histories", 100, "--steps", 60, "--maxops", 10, "--regime", "any", "--merge", "--snap")],
+}
+ENGINES["merkle"]["trace_props"] = {"heads": ["C15", "C01", "C03", "C08"], "nodeset": ["C15", "C20"]}
+
+# ---- three nesting levels: Map<K, Map<K, Map<K, MVReg>>> ---------------------------------------------
+ENGINES["map_map_map_mv"] = {
+    "harness_engine": "map_map_map_mv", "serves": MAP_SERVES,
+    "configs": {"quick": [mapcfg("map_map_map_mv_q.cfg", 1, 1)], "thorough": [mapcfg("map_map_map_mv_q.cfg", 1, 1)]},
+    "traces": {"quick": [], "thorough": []},
+}
